@@ -6,6 +6,7 @@
 //      f(model), XGETBV must never be executed on a model without OSXSAVE, and repeated calls with
 //      different garbage (incl. the unspecified ECX of plain __cpuid) must agree.
 #include <cpuid.h>
+#include <sys/wait.h>
 #include "gens.hpp"
 using namespace skv;
 
@@ -41,7 +42,9 @@ static uint32_t model_xcr0() {
 struct C13 : Harness {
     Api api = static_api();
     bool comp128 = true, comp256 = true;
+    int which = 2;   // 0 real-CPU cases only, 1 modelled only (each case in a forked child), 2 both (replay)
     void configure(const std::map<std::string, std::string> &kv) override {
+        if (kv.count("cases")) which = kv.at("cases") == "real" ? 0 : kv.at("cases") == "model" ? 1 : 2;
         if (kv.count("vec128")) comp128 = kv.at("vec128") == "1";
         if (kv.count("vec256")) comp256 = kv.at("vec256") == "1";
     }
@@ -62,9 +65,10 @@ struct C13 : Harness {
     }
 
     rc::Gen<Program> gen() override {
-        return rc::gen::exec([]() {
+        int w = which;
+        return rc::gen::exec([w]() {
             Program p;
-            bool modelled = *chance(60);
+            bool modelled = w == 2 ? (bool)*chance(60) : w == 1;
             if (modelled) {
                 Op c = mkop("cpu");
                 bool all = *chance(25);     // "everything present" baseline models
@@ -95,7 +99,47 @@ struct C13 : Harness {
         });
     }
 
+    // A modelled CPU is put in place of the real one for one case.  If the library kept anything from
+    // an earlier probe (a cache would be legitimate for C13: a real CPU never changes), cases would
+    // influence each other, so every modelled case runs in a forked child of a parent that never
+    // calls the library itself.
     std::string run(const Program &p, Stats &st) override {
+        bool modelled_case = !p.empty() && p[0].name == "cpu";
+        if (!modelled_case || which == 2 && false) return run_here(p, st);
+        int fd[2];
+        if (pipe(fd) != 0) return run_here(p, st);
+        fflush(stdout); fflush(stderr);
+        pid_t pid = fork();
+        if (pid < 0) { close(fd[0]); close(fd[1]); return run_here(p, st); }
+        if (pid == 0) {
+            close(fd[0]);
+            Stats dummy; dummy.shrinking = true;
+            std::string r = run_here(p, dummy);
+            ssize_t w = write(fd[1], r.data(), r.size()); (void)w;
+            _exit(0);
+        }
+        close(fd[1]);
+        std::string r; char buf[1024]; ssize_t n;
+        while ((n = read(fd[0], buf, sizeof buf)) > 0) r.append(buf, (size_t)n);
+        close(fd[0]);
+        int status = 0; waitpid(pid, &status, 0);
+        if (!WIFEXITED(status) || WEXITSTATUS(status) != 0) return "the process died while initialising on a modelled CPU (status " + std::to_string(status) + ")";
+        if (!r.empty()) return r;
+        classify(p, st);
+        return "";
+    }
+    void classify(const Program &p, Stats &st) {
+        if (st.shrinking) return;
+        const Op &c = p[0];
+        uint32_t maxleaf = (uint32_t)c.geti("maxleaf"), l1edx = (uint32_t)c.geti("l1edx"), l1ecx = (uint32_t)c.geti("l1ecx"), xcr0 = (uint32_t)c.geti("xcr0"), ebx0 = (uint32_t)c.geti("l7ebx0");
+        bool sse2 = maxleaf >= 1 && ((l1edx >> 26) & 1), osx = (l1ecx >> 27) & 1, avx = (l1ecx >> 28) & 1, bit5 = (ebx0 >> 5) & 1;
+        bool avx2 = maxleaf >= 7 && osx && avx && (xcr0 & 6) == 6 && bit5;
+        st.count(std::string("model/sse2=") + (sse2 ? "1" : "0") + "/avx2-usable=" + (avx2 ? "1" : "0"));
+        if (bit5 && !avx2) st.count(std::string("model/avx2-bit-set-but-unusable/") + (maxleaf < 7 ? "maxleaf<7" : !osx ? "no-osxsave" : !avx ? "no-avx" : "xcr0"));
+        st.extra["calls"] += (double)(p.size() - 1);
+        st.case_done(ser(p), !(sse2 && avx2));
+    }
+    std::string run_here(const Program &p, Stats &st) {
         CpuModel cpu; bool modelled = false;
         bool sse2 = false, avx2 = false;
         size_t first = 0;
@@ -162,18 +206,10 @@ struct C13 : Harness {
             }
         }
         if (!res.empty()) return res + (modelled ? " [modelled CPU: sse2=" + std::to_string(sse2) + " avx2-usable=" + std::to_string(avx2) + "]" : " [real CPU]");
-        if (!st.shrinking) {
-            bool nt;
-            if (modelled) {
-                st.count(std::string("model/sse2=") + (sse2 ? "1" : "0") + "/avx2-usable=" + (avx2 ? "1" : "0"));
-                bool osx = (cpu.l1ecx >> 27) & 1, avx = (cpu.l1ecx >> 28) & 1, bit5 = (cpu.l7ebx[0] >> 5) & 1;
-                if (bit5 && !avx2) st.count(std::string("model/avx2-bit-set-but-unusable/") + (cpu.maxleaf < 7 ? "maxleaf<7" : !osx ? "no-osxsave" : !avx ? "no-avx" : "xcr0"));
-                nt = !(sse2 && avx2);
-            } else {
-                st.count("real-cpu");
-                nt = false;
-                for (size_t i = first; i < p.size(); ++i) { const Bytes *g = p[i].getb("g"); if (g && ((*g)[0] | (*g)[1] | (*g)[2] | (*g)[3])) nt = true; }
-            }
+        if (!st.shrinking && !modelled) {
+            st.count("real-cpu");
+            bool nt = false;
+            for (size_t i = first; i < p.size(); ++i) { const Bytes *g = p[i].getb("g"); if (g && ((*g)[0] | (*g)[1] | (*g)[2] | (*g)[3])) nt = true; }
             st.extra["calls"] += (double)(p.size() - first);
             st.case_done(ser(p), nt);
         }
